@@ -2,7 +2,7 @@
 
 Deciding step: complete enumeration of the 41 472-point option product on the real
 compute_emissions (quick: one synthetic trajectory; thorough: additionally a simulated
-flight and a second synthetic one), each outcome classified.
+151-point flight and a second synthetic one), each outcome classified.
 """
 
 from __future__ import annotations
@@ -32,6 +32,7 @@ _STATE = {}
 def _trajs(tier):
     t = {'syn8': ec.synthetic8()}
     if tier == 'thorough':
+        t['flown'] = None  # simulated flight, built in the worker
         t['syn5'] = dict(
             fuel_mass=[5000.0, 4800.0, 4800.0, 4500.0, 4450.0], fuel_flow=[1.5, 1.0, 0.6, 0.3, 0.05],
             altitude=[0.0, 10990.0, 11010.0, 12500.0, 500.0], tas=[120.0, 230.0, 235.0, 235.0, 120.0],
@@ -55,13 +56,32 @@ def sublattices(tier, seed):
     return subs
 
 
+def _flown():
+    """A simulated flight (BOS-LAX, 50-point phases) as a third trajectory for the thorough tier."""
+    import AEIC.trajectories.builders as tb
+    from AEIC.missions import Mission
+    from AEIC.missions.mission import iso_to_timestamp
+
+    m = Mission(origin='BOS', destination='LAX', departure=iso_to_timestamp('2019-01-01T12:00:00'),
+                arrival=iso_to_timestamp('2019-01-01T18:00:00'), aircraft_type='738', load_factor=1.0)
+    b = tb.LegacyBuilder(options=tb.Options(iterate_mass=False),
+                         legacy_options=tb.LegacyOptions(frac_step_clm=0.02, frac_step_crz=0.02, frac_step_des=0.02))
+    t = b.fly(_STATE['pm'], m)
+    spec = dict(fuel_mass=[float(x) for x in t.fuel_mass], fuel_flow=[float(x) for x in t.fuel_flow],
+                altitude=[float(x) for x in t.altitude], tas=[float(x) for x in t.true_airspeed],
+                n_climb=int(t.n_climb), n_descent=int(t.n_descent))
+    return t, spec
+
+
 def worker_init(tier, seed):
     from vf import env
 
     env.load_config()
     _STATE['pm'] = ec.real_pm()
     _STATE['fuel'] = env.load_fuel('conventional_jetA')
-    _STATE['trajs'] = {k: (ec.make_traj(**v), v) for k, v in _trajs('thorough').items()}
+    _STATE['trajs'] = {k: (ec.make_traj(**v), v) for k, v in _trajs('thorough').items() if k != 'flown'}
+    if tier == 'thorough':
+        _STATE['trajs']['flown'] = _flown()
 
 
 def _opts(case):
